@@ -18,7 +18,7 @@ rm $wt/wgsl_to_wgpu/tests/$dn.rs
 git -C /repo worktree remove --force $wt
 echo "$name: demo-without-patch=$r0 demo-with-patch=$r1 suite-with-patch=$rs"
 [ $r0 -eq 0 ] && [ $r1 -ne 0 ] && [ $rs -eq 0 ] || { echo "$name: NOT CONFIRMED"; exit 4; }
-cd /verif
+cd /verif; export VERIF_NO_EVIDENCE=1
 git -C /repo apply $d/patch.diff || exit 3
 for id in "$@"; do
   ./check $id > /tmp/mut/$name.$id.log 2>&1; rc=$?
